@@ -143,7 +143,7 @@ func (c *Ctx) ruleReconnectResumes(rr *RuleRep) {
 		rr.Lost("reconnect-loop", "%s", why)
 		return
 	}
-	rr.Floor(6)
+	rr.Floor(4)
 	f := m.F
 	key := FuncName(f)
 	// (a) every successful Connect is followed by Retry before the loop comes round or ends
